@@ -25,6 +25,16 @@ namespace vf
 #ifndef C12_CONTROL
 #define C12_CONTROL vf::vcontrol
 #endif
+// user states handed to parse_tree::parse( in, st... ): none, or one object (every hook of the builder then sees state< Node >& plus a user state;
+// transformers and the optional unwind() are found by SFINAE on exactly that argument list)
+#ifdef C12_USER_STATE
+namespace c12 { inline vf::ostate user_state; }
+#define C12_STATE_ARGS , c12::user_state
+#define C12_STATE_PRE c12::user_state,    /* the builder state goes LAST (rotate_states_right moves it to the front) */
+#else
+#define C12_STATE_ARGS
+#define C12_STATE_PRE
+#endif
 
 namespace c12
 {
@@ -158,7 +168,7 @@ namespace c12
       out[ 5 ] = 0;
       out[ 6 ] = 0;
       try {
-         const std::unique_ptr< tnode > r = parse_tree::parse< Rule, tnode, Selector, Action, C12_CONTROL >( in );
+         const std::unique_ptr< tnode > r = parse_tree::parse< Rule, tnode, Selector, Action, C12_CONTROL >( in C12_STATE_ARGS );
          if( r ) {
             unsigned long count = 0;
             unsigned long lost = 0;
@@ -192,7 +202,7 @@ namespace c12
       in.bump_in_this_line( start );
       out[ 2 ] = 0;
       try {
-         out[ 0 ] = tao::pegtl::parse< Rule, Action, C12_CONTROL >( in ) ? 1 : 0;
+         out[ 0 ] = tao::pegtl::parse< Rule, Action, C12_CONTROL >( in C12_STATE_ARGS ) ? 1 : 0;
       }
       catch( const vf::verif_exc& e ) {
          out[ 0 ] = 2;
@@ -216,7 +226,7 @@ namespace c12
       out[ 2 ] = 0;
       parse_tree::internal::state< tnode > st;
       try {
-         out[ 0 ] = tao::pegtl::parse< Rule, Action, parse_tree::internal::make_control< tnode, Selector, C12_CONTROL >::template type >( in, st ) ? 1 : 0;
+         out[ 0 ] = tao::pegtl::parse< Rule, Action, parse_tree::internal::make_control< tnode, Selector, C12_CONTROL >::template type >( in, C12_STATE_PRE st ) ? 1 : 0;
       }
       catch( const vf::verif_exc& e ) {
          out[ 0 ] = 2;
